@@ -426,7 +426,7 @@ def replay_synthetic(d):
     return (not p), "synthetic loci: %s" % (p[:5] or "labels, strands, chains consistent")
 
 
-@bounded("C04.synthetic_loci", ["C04"], note="one pipeline run on three synthetic loci written into a gene-free stretch of the bundled reference "
+@bounded("C04.synthetic_loci", ["C04"], shards=8, note="one pipeline run on three synthetic loci written into a gene-free stretch of the bundled reference "
          "(own GTF, pysam-written reads): an intron 3 bp off an annotated acceptor, a novel combination of annotated introns, an unrelated "
          "novel intron; the same output invariants as C04.pipeline_outputs (suffix .nic iff all introns annotated, definite strand, ...)")
 def c04_synthetic(tier, rng):
